@@ -173,6 +173,7 @@ static void deser_scenario(cs::Src& s, cs::Ctx& ctx) {
     mref::encode(v, bytes, w, st);
   } else {
     gen::Spell sp;
+    sp.strict = s.coin();  // the dialect spellings (unquoted keys, single quotes) have their own string readers
     gen::attach_float_literals(s, v, 30);
     bytes = gen::spell_document(s, sp, v);
   }
